@@ -28,8 +28,9 @@ ASSUMPTIONS = [
     "documented couplings excepted from independence: number_format -> number_format_is_linked; crosses <-> crosses_at; "
     "rgb / theme_color / brightness of one colour; text setters vs the runs they replace",
     "domain of each property as written in harness/oplab.py from the docstrings and the schema types; for properties whose "
-    "stored value is a sum or difference of two others (connector end points, table height / width) values are kept below "
-    "2^40 EMU so that the derived value stays inside its type",
+    "stored value is a sum of others (table height / width) values are kept below 2^40 EMU so that the derived value stays "
+    "inside its type; connector end points range over the whole coordinate type (an unrepresentable span must be refused "
+    "and leave the connector alone)",
 ]
 TRUSTED = ["harness/oplab.py (property table and object discovery)"]
 
